@@ -103,6 +103,16 @@ impl ContinuousOutput {
         }
         
         let tol = 1e-12;
+
+        // Prefer the segment that really contains t: with steps shorter than `tol` the
+        // tolerance test below would match an earlier segment and extrapolate it
+        for seg in &self.segs {
+            let left = seg.xold.min(seg.xold + seg.h);
+            let right = seg.xold.max(seg.xold + seg.h);
+            if t >= left && t <= right {
+                return Some(seg);
+            }
+        }
         
         // Strict interpolation - only return segment if t is within it
         for seg in &self.segs {
